@@ -43,6 +43,15 @@ def run_shard(spec, rep):
             total = sc.dt * sc.n
             sc.program = TemperatureProgram(coefficients=[sc.t0, -sc.t0 * rng.uniform(0.6, 4.0) / total], type="polynomial")
             sc.conditions.temperature_program = sc.program
+        srng = gen.case_rng(PROP + ":scale", spec["seed"], spec["shard"], index)
+        if srng.random() < 0.3 and sc.narrow is None and isinstance(sc.m0, float) and isinstance(sc.area, float):
+            # the same request at another scale (round 9): a microgram..gram laboratory charge or a tonne-scale batch on a
+            # membrane scaled with it - step length and first-step fraction are unchanged, only the absolute amounts move
+            # (an absolute tolerance in kg hidden in a guard is invisible at the usual 0.01..1000 kg)
+            s = gen.loguniform(srng, 1e-12, 1e-3) if srng.random() < 0.8 else gen.loguniform(srng, 1e3, 1e6)
+            sc.m0, sc.area = type(sc.m0)(float(sc.m0) * s), type(sc.area)(float(sc.area) * s)
+            sc.conditions.initial_feed_amount, sc.conditions.membrane_area = sc.m0, sc.area
+            rep.count("rescaled_charge:" + ("micro" if s < 1 else "tonne"))
         if sc.ideal and rng.random() < 0.05:
             # a barrier membrane: stated permeance exactly 0 for both components (fluxes exactly zero in vacuum mode)
             from pyvaporation.permeance import Permeance
